@@ -46,7 +46,7 @@ func unitsA() []verifsim.Unit {
 			Assumptions: []string{"no schedule/clock/fault dimension: seeded operation histories + reference model (concurrent CopyRecent is C16)", "queries on a current slot that was not written since the reset are compared by length only"},
 		},
 		{
-			Name: "A.det", Props: []string{"C07"}, Run: runADet,
+			Name: "A.det", Props: []string{"C07", "C14"}, Run: runADet,
 			Rule:    "one case = seeded detector configuration (warmer/abs x one/two-diff, gap 1-5, edge 0-3, count 1-12, delta incl. 0 and 1, temp-thresh anywhere) + FFC-free frame stream whose frames are derived from the comparison frame with differences of delta-1/delta/delta+1 on count-1/count/count+1 pixels, values T-1/T/T+1, full-range redraws, border noise incl. zeros, camera resets; every frame is compared with the reference detector R-det; non-trivial = some but not all frames are motion; distinct = configuration + motion string",
 			Measure: "c07.cfg = (warmer, one-diff, gap, edge, delta, count)",
 			Real:    realA, Stub: stubA,
